@@ -139,6 +139,18 @@ class Gen(object):
             c = self.events()
             a = self.block(depth + 1, ctx, 1, 3)
             b = self.block(depth + 1, ctx, 0, 2) if rng.random() < 0.6 else ['seq', []]
+            if rng.random() < 0.25:
+                # an elif ladder (an else: holding exactly one if) whose elif test binds a name through a walrus; the name is read
+                # in the first branch (unbound there on every path through the ladder) and after the ladder (possibly unbound)
+                self.count('elif-walrus-shape')
+                y = [z for z in POOL if z not in ctx.get('nobind', ())][0] if ctx.get('nobind') else self.name()
+                d1 = self.s()
+                self.hints[d1] = 'walrus'
+                c2 = self.events(walrus=False)
+                c2 = ['seq', c2[1] + [['bind', y, d1]]]
+                a2 = self.block(depth + 1, ctx, 1, 2)
+                a = ['seq', [['read', y, self.r()]] + a[1]]
+                return [['if', c, a, ['seq', [['if', c2, a2, b]]]], ['read', y, self.r()]]
             return [['if', c, a, b]]
         if kind == 'while':
             c = self.events()
